@@ -172,6 +172,8 @@ impl ExecStatus {
 }
 
 pub struct ExecResult {
+    /// A seam was used from a thread that is not a simulated one during this execution.
+    pub foreign_thread: bool,
     pub status: ExecStatus,
     pub sim: Sim,
     pub trace: Trace,
@@ -180,6 +182,10 @@ pub struct ExecResult {
 thread_local! {
     static LAST_PANIC: RefCell<Option<String>> = const { RefCell::new(None) };
 }
+
+/// Set when a seam is reached from a thread the simulator does not own (code under test started a
+/// real OS thread): the in-process engine cannot decide anything about such code.
+pub static FOREIGN_THREAD: std::sync::atomic::AtomicBool = std::sync::atomic::AtomicBool::new(false);
 
 /// Install (once per process) a panic hook that records the message instead of printing it.
 pub fn install_quiet_panic_hook() {
@@ -191,6 +197,9 @@ pub fn install_quiet_panic_hook() {
         } else {
             "<non-string panic>".to_string()
         };
+        if msg.contains("outside of a Shuttle test") || msg.contains("seam used outside a simulation") || msg.contains("called outside a simulation") {
+            FOREIGN_THREAD.store(true, std::sync::atomic::Ordering::SeqCst);
+        }
         let loc = info.location().map(|l| format!(" at {}:{}", l.file(), l.line())).unwrap_or_default();
         LAST_PANIC.with(|p| {
             let mut p = p.borrow_mut();
@@ -209,6 +218,7 @@ where
 {
     state::begin(scenario, keep_log);
     LAST_PANIC.with(|p| *p.borrow_mut() = None);
+    FOREIGN_THREAD.store(false, std::sync::atomic::Ordering::SeqCst);
     let trace = Rc::new(RefCell::new(Trace::default()));
     let sched = SimScheduler::new(spec, trace.clone());
 
@@ -254,5 +264,5 @@ where
 
     let sim = state::finish();
     let trace = trace.borrow().clone();
-    ExecResult { status, sim, trace }
+    ExecResult { foreign_thread: FOREIGN_THREAD.load(std::sync::atomic::Ordering::SeqCst), status, sim, trace }
 }
